@@ -1,5 +1,6 @@
 import GufoSnmp.Driver.Codec
 import GufoSnmp.Model.Policer
+import GufoSnmp.Driver.SessionCmd
 import GufoSnmp.Model.Socket
 import GufoSnmp.Model.PyClient
 import GufoSnmp.Model.Crypto.Md5
@@ -290,6 +291,7 @@ def handle (line : String) : String :=
   | ["cmparcs", a, b] => withHex a (fun a => withHex b (fun b =>
       s!"ok {match cmpArcs a b with | .lt => "lt" | .eq => "eq" | .gt => "gt"}"))
   | ["buf", ops] => cmdBuf ops
+  | ["session", cfg, evs] => cmdSession cfg evs
   | ["p2m", a, pw] =>
     match parseAlgName a, parseHex pw with
     | some a, some pw => renderOutcome hex (passwordToMaster digests a pw a.keySize)
